@@ -134,6 +134,10 @@ def build_contracts(loader, h, extra_no=()):
     for qn, fn in allc.items():
         if qn in h.body_of or qn in extra_no:
             continue
+        if qn.startswith("pyModeS.c_common.") and loader.common_impl != "c":
+            continue        # contracts of the C twin only matter when pyModeS.common is bound to it
+        if qn.startswith("pyModeS.py_common.") and loader.common_impl == "c" and qn not in h.overrides:
+            continue
         if uses != "default" and qn not in uses and qn not in h.overrides:
             continue
         mod = loader.load(fn.__module__)
@@ -159,7 +163,7 @@ def prove_case(hid, case, timeout_ms, common_impl="py", exclude_regions=(), max_
         from . import native as _n  # registry loader (imports the contracts modules natively)
         hs = _n.load_all()
         h = hs[hid]
-        loader = Loader(common_impl)
+        loader = Loader("c" if getattr(h, "config", "py") == "c" else common_impl)
         mod = loader.load(h.module)
         fv = mod.globals[h.name]
         if not isinstance(fv, FuncValue):
